@@ -388,3 +388,49 @@ func scanNondeterminism(r *run) {
 	sort.Strings(sites)
 	r.notes = append(r.notes, "enumeration sites found by the scan: "+strings.Join(sites, "; "))
 }
+
+// scanColumnReaders (C06 L4): who reads the column and the offside stack.
+func scanColumnReaders(r *run) {
+	p := r.eng.ByName["main"]
+	if p == nil {
+		addScanObl(r, "column-readers", "package main loaded", false, "")
+		return
+	}
+	allowedCol := map[string]bool{"psCurCol": true, "tkzNext": true}
+	allowedOff := map[string]bool{"psCurOffside": true, "psPushOffside": true, "psPopOffside": true, "psWithTkz": true, "psWithScope": true, "psWithOffside": true, "psWithTVCtx": true, "psWithTDCtx": true, "newParse": true}
+	var bad []string
+	for _, f := range p.Syntax {
+		if strings.HasSuffix(r.eng.Fset.File(f.Pos()).Name(), "_test.go") {
+			continue
+		}
+		for _, d := range f.Decls {
+			fd, ok := d.(*ast.FuncDecl)
+			if !ok || fd.Body == nil {
+				continue
+			}
+			ast.Inspect(fd.Body, func(n ast.Node) bool {
+				sel, ok := n.(*ast.SelectorExpr)
+				if !ok {
+					return true
+				}
+				s, ok := p.TypesInfo.Selections[sel]
+				if !ok || s.Kind() != types.FieldVal {
+					return true
+				}
+				recv := s.Recv().String()
+				switch {
+				case sel.Sel.Name == "col" && strings.HasSuffix(recv, "Tokenizer"):
+					if !allowedCol[fd.Name.Name] {
+						bad = append(bad, "Tokenizer.col is read in "+fd.Name.Name)
+					}
+				case sel.Sel.Name == "offsideCol" && strings.HasSuffix(recv, "ParseState"):
+					if !allowedOff[fd.Name.Name] {
+						bad = append(bad, "ParseState.offsideCol is read in "+fd.Name.Name)
+					}
+				}
+				return true
+			})
+		}
+	}
+	addScanObl(r, "column-readers", "Tokenizer.col is read only by psCurCol / tkzNext and ParseState.offsideCol only by the offside primitives and the parse-state constructors", len(bad) == 0, strings.Join(bad, "; "))
+}
